@@ -43,7 +43,6 @@ fn decode_and_query(buf: &[u8]) -> Result<bool, String> {
 //@n {"id":"C15.N.ntv2.truncations","props":["C15","C09"],"tier":"quick","bound":"every truncation length 0..len of the three shipped .gsb files (5458.gsb, 5458_with_subgrid.gsb, 100800401.gsb), each decoded result queried at 28 probe points x 2 margins","text":"a truncated NTv2 file yields an error value or a grid that can be queried safely; decoding and queries never panic"}
 #[test]
 fn verif_native_c15_ntv2_truncations() {
-    std::panic::set_hook(Box::new(|_| {}));
     let mut bad = Vec::new();
     for (name, buf) in files() {
         let step = if buf.len() > 4000 { 7 } else { 1 };
@@ -56,14 +55,12 @@ fn verif_native_c15_ntv2_truncations() {
         }
         assert!(decode_and_query(&buf) == Ok(true), "the complete file {name} decodes");
     }
-    let _ = std::panic::take_hook();
     assert!(bad.is_empty(), "C15.N.ntv2.truncations: {} truncations panic, first: {}", bad.len(), bad[0]);
 }
 
 //@n {"id":"C15.N.ntv2.bitflips","props":["C15","C09"],"tier":"quick","bound":"every single-bit flip in the overview header and the first sub grid header (352 bytes x 8 bits) of 5458.gsb and 5458_with_subgrid.gsb, each decoded result queried at 28 probe points x 2 margins","text":"a bit-flipped NTv2 header yields an error value or a grid that can be queried safely; never a panic"}
 #[test]
 fn verif_native_c15_ntv2_bitflips() {
-    std::panic::set_hook(Box::new(|_| {}));
     let mut bad = Vec::new();
     for (name, buf) in files() {
         if buf.len() > 4000 {
@@ -79,6 +76,5 @@ fn verif_native_c15_ntv2_bitflips() {
             }
         }
     }
-    let _ = std::panic::take_hook();
     assert!(bad.is_empty(), "C15.N.ntv2.bitflips: {} flips panic, first: {}", bad.len(), bad[0]);
 }
